@@ -335,3 +335,21 @@ package component_definition
 //@ assigns m.Fields, VisitLen, VisitAt
 //@ ensures [fields-inv-kept] FieldsInv(m)
 //@ ensures [fields-only-grow] len(m.Fields) >= len(old(m.Fields)) && forall(k, int, implies(0 <= k && k < len(old(m.Fields)), m.Fields[k] == old(m.Fields[k])))
+
+// ---- property groups of a Meta (C11, C01) ----------------------------------------------------------------------------
+//   GroupPos[j]: ghost witness: where the j-th stored property sits in its group after SetProperties
+//@ ghost var GroupPos map[int]int
+//@ spec func GroupOf(m *Meta, t PropertyType) []*Property = m.propertyGroup[t]
+
+// SetProperties appends every given property to the group of its type, keeping what the groups already hold.
+//@ func (*Meta).SetProperties
+//@ property C11
+//@ requires [meta-built] m != nil && m.propertyGroup != nil
+//@ requires [properties-non-nil] forall(j, int, implies(0 <= j && j < len(properties), properties[j] != nil), properties[j])
+//@ assigns mapcontents(m.propertyGroup), GroupPos
+//@ ensures [all-stored] forall(j, int, implies(0 <= j && j < len(properties), 0 <= GroupPos[j] && GroupPos[j] < len(GroupOf(m, properties[j].PropertyType)) && GroupOf(m, properties[j].PropertyType)[GroupPos[j]] == properties[j]), properties[j])
+//@ ensures [earlier-kept] forall(t, PropertyType, forall(k, int, implies(0 <= k && k < len(old(GroupOf(m, t))), len(GroupOf(m, t)) >= len(old(GroupOf(m, t))) && GroupOf(m, t)[k] == old(GroupOf(m, t)[k]))))
+//@ ghost before call append: GroupPos = store(GroupPos, _idx, len(m.propertyGroup[prop.PropertyType]))
+//@ loop 1 invariant [bounds] 0 <= _done && _done <= len(properties)
+//@ loop 1 invariant [stored-so-far] forall(j, int, implies(0 <= j && j < _done, 0 <= GroupPos[j] && GroupPos[j] < len(GroupOf(m, properties[j].PropertyType)) && GroupOf(m, properties[j].PropertyType)[GroupPos[j]] == properties[j]), properties[j])
+//@ loop 1 invariant [earlier-kept] forall(t, PropertyType, forall(k, int, implies(0 <= k && k < len(old(GroupOf(m, t))), len(GroupOf(m, t)) >= len(old(GroupOf(m, t))) && GroupOf(m, t)[k] == old(GroupOf(m, t)[k]))))
